@@ -61,6 +61,15 @@ func (env *rEnv) typeOf(n *rNode) types.Type {
 				}
 			}
 		}
+		if n.Text == "callretval" && len(n.Args) == 2 && n.Args[0].Op == "str" {
+			if idx, ok := constIndex(env.eval(n.Args[1])); ok {
+				if fn := env.e.findByShort(n.Args[0].Text); fn != nil && idx < fn.Signature.Results().Len() {
+					if pt, ok := fn.Signature.Results().At(idx).Type().Underlying().(*types.Pointer); ok {
+						return pt.Elem()
+					}
+				}
+			}
+		}
 		if n.Text == "callret" && len(n.Args) == 2 && n.Args[0].Op == "str" {
 			if idx, ok := constIndex(env.eval(n.Args[1])); ok {
 				if fn := env.e.findByShort(n.Args[0].Text); fn != nil && idx < fn.Signature.Results().Len() {
@@ -323,6 +332,20 @@ func (env *rEnv) call(n *rNode) Value {
 			}
 			return env.fail("no call to %s on this path", n.Args[0].Text)
 		}
+	case "callretval":
+		// callretval("Short", i): the struct the i-th (pointer) result pointed to when the call returned
+		if n.Args[0].Op == "str" {
+			if idx, ok := constIndex(env.eval(n.Args[1])); ok {
+				for i := len(env.post.trace) - 1; i >= 0; i-- {
+					if env.post.trace[i].Kind == "ret:"+n.Args[0].Text {
+						if snaps, ok := env.post.trace[i].Extra.([]Value); ok && idx < len(snaps) && snaps[idx] != nil {
+							return snaps[idx]
+						}
+					}
+				}
+			}
+			return env.fail("no struct result of %s on this path", n.Args[0].Text)
+		}
 	case "callret":
 		// callret("Short", i): i-th result of the last modular call to that function
 		if n.Args[0].Op == "str" {
@@ -523,6 +546,98 @@ func (env *rEnv) call(n *rNode) Value {
 		cc := App(SBytes, "b.concat", argT(0), argT(1))
 		env.post.fact(Not(Eq(cc, nullB)))
 		return sym(cc)
+	case "stmtWhereOn":
+		// stmtWhereOn("delete", "mapped", n, col1, val1, ..., docId): the WHERE of the n-th statement of that kind on that
+		// table, evaluated on a row whose named columns have the given values; `x IN (SELECT id FROM documents ..)` refers
+		// to the documents row docId.
+		if len(n.Args) >= 4 && n.Args[0].Op == "str" && n.Args[1].Op == "str" {
+			want, _ := constIndex(env.eval(n.Args[2]))
+			cols := map[string]Term{}
+			for i := 3; i+1 < len(n.Args)-0 && n.Args[i].Op == "str"; i += 2 {
+				cols[strings.ToLower(n.Args[i].Text)] = argT(i + 1)
+			}
+			docID := argT(len(n.Args) - 1)
+			k := 0
+			for _, ev := range env.post.trace {
+				info, _ := ev.Extra.(*StmtInfo)
+				if ev.Kind != "sql" || info == nil || info.Stmt == nil || info.Kind != n.Args[0].Text || !strings.EqualFold(info.Table, n.Args[1].Text) {
+					continue
+				}
+				if k != want {
+					k++
+					continue
+				}
+				params := *info.Params
+				params.next = 0
+				c := &evalCtx{e: e, st: env.post, params: &params, table: info.Table, docOfIn: docID, docsIn: info.DocsAt}
+				c.other = func(col string) SQLVal {
+					if t, ok := cols[col]; ok {
+						return SQLVal{T: t, Null: TFalse}
+					}
+					return SQLVal{Any: true}
+				}
+				return sym(c.where(info.Stmt.Where))
+			}
+			return env.fail("no %s statement %d on %s on this path", n.Args[0].Text, want, n.Args[1].Text)
+		}
+	case "stmtParamOf":
+		// stmtParamOf("update", "views", n, "lastCas"): the value the n-th such statement assigns to that column;
+		// stmtParamOf(..., "where:id"): the value its WHERE compares that column with
+		if len(n.Args) == 4 && n.Args[0].Op == "str" && n.Args[1].Op == "str" && n.Args[3].Op == "str" {
+			want, _ := constIndex(env.eval(n.Args[2]))
+			k := 0
+			for _, ev := range env.post.trace {
+				info, _ := ev.Extra.(*StmtInfo)
+				if ev.Kind != "sql" || info == nil || info.Stmt == nil || info.Kind != n.Args[0].Text || !strings.EqualFold(info.Table, n.Args[1].Text) {
+					continue
+				}
+				if k != want {
+					k++
+					continue
+				}
+				params := *info.Params
+				params.next = 0
+				c := &evalCtx{e: e, st: env.post, params: &params, table: info.Table}
+				name := n.Args[3].Text
+				if strings.HasPrefix(name, "where:") {
+					for _, cj := range conjuncts(info.Stmt.Where) {
+						if cj.Op == "=" && cj.Args[0].Op == "col" && strings.EqualFold(cj.Args[0].Name, name[6:]) {
+							if v := c.eval(cj.Args[1]); !v.Any {
+								return sym(v.T)
+							}
+						}
+					}
+					return env.fail("statement has no conjunct on %s", name[6:])
+				}
+				for _, set := range info.Stmt.Sets {
+					if strings.EqualFold(set.Col, name) {
+						if v := c.eval(set.Expr); !v.Any {
+							return sym(v.T)
+						}
+					}
+				}
+				for i, col := range info.Stmt.Cols {
+					if strings.EqualFold(col, name) {
+						if v := c.eval(info.Stmt.Values[i]); !v.Any {
+							return sym(v.T)
+						}
+					}
+				}
+				return env.fail("statement does not assign %s", name)
+			}
+			return env.fail("no %s statement %d on %s on this path", n.Args[0].Text, want, n.Args[1].Text)
+		}
+	case "stmtCount":
+		if len(n.Args) == 2 && n.Args[0].Op == "str" && n.Args[1].Op == "str" {
+			k := 0
+			for _, ev := range env.post.trace {
+				info, _ := ev.Extra.(*StmtInfo)
+				if ev.Kind == "sql" && info != nil && info.Kind == n.Args[0].Text && strings.EqualFold(info.Table, n.Args[1].Text) {
+					k++
+				}
+			}
+			return sym(IntLit(int64(k)))
+		}
 	case "cursorWhere":
 		// cursorWhere(i, id): the WHERE clause of the i-th SELECT cursor opened on this path holds for row id
 		if idx, ok := constIndex(env.eval(n.Args[0])); ok {
